@@ -100,11 +100,11 @@ Theorem C20_refuted_D8_http_stop_without_close :
 Proof. exists [SStart; SStop; SStart]. vm_compute. discriminate. Qed.
 
 (* ---- what each element of the TFTP protocol is for: dropping it breaks the property ---- *)
-Definition no_join := {| v_join := false; v_close := true; v_release := true; v_chkrun := true; v_reset := true; v_trycovers := true |}.
-Definition no_close := {| v_join := true; v_close := false; v_release := true; v_chkrun := true; v_reset := true; v_trycovers := true |}.
-Definition hold_lock := {| v_join := true; v_close := true; v_release := false; v_chkrun := true; v_reset := true; v_trycovers := true |}.
-Definition no_chkrun := {| v_join := true; v_close := true; v_release := true; v_chkrun := false; v_reset := true; v_trycovers := true |}.
-Definition no_reset := {| v_join := true; v_close := true; v_release := true; v_chkrun := true; v_reset := false; v_trycovers := true |}.
+Definition no_join := {| v_join := false; v_close := true; v_release := true; v_chkrun := true; v_reset := true; v_trycovers := true; v_peek := false |}.
+Definition no_close := {| v_join := true; v_close := false; v_release := true; v_chkrun := true; v_reset := true; v_trycovers := true; v_peek := false |}.
+Definition hold_lock := {| v_join := true; v_close := true; v_release := false; v_chkrun := true; v_reset := true; v_trycovers := true; v_peek := false |}.
+Definition no_chkrun := {| v_join := true; v_close := true; v_release := true; v_chkrun := false; v_reset := true; v_trycovers := true; v_peek := false |}.
+Definition no_reset := {| v_join := true; v_close := true; v_release := true; v_chkrun := true; v_reset := false; v_trycovers := true; v_peek := false |}.
 
 Theorem C20_refuted_variants :
   seq_holds [SStart; SStop] (tseq no_join init [SStart; SStop]) (spec_run false [SStart; SStop]) = ["stop_releases"%string] /\
@@ -119,7 +119,7 @@ Proof. repeat split; vm_compute; try reflexivity; discriminate. Qed.
    socket (TFTP, the code as it is) the failed start leaves the server stopped; with it outside, and in
    HttpServer.start as it is (no try/except at all: cleanup_on_start_failure = false), the socket stays bound
    while _running is False, stop() is a no-op and the port is never released -- KNOWN FINDING for HTTP *)
-Definition no_trycover := {| v_join := true; v_close := true; v_release := true; v_chkrun := true; v_reset := true; v_trycovers := false |}.
+Definition no_trycover := {| v_join := true; v_close := true; v_release := true; v_chkrun := true; v_reset := true; v_trycovers := false; v_peek := false |}.
 Theorem C20_refuted_start_thread_failure :
   seq_holds [SStartThreadFail; SStop] (tseq cur init [SStartThreadFail; SStop]) (spec_run false [SStartThreadFail; SStop]) = [] /\
   seq_holds [SStartThreadFail; SStop] (tseq no_trycover init [SStartThreadFail; SStop]) (spec_run false [SStartThreadFail; SStop])
@@ -128,6 +128,23 @@ Theorem C20_refuted_start_thread_failure :
     = ["failed_start_leaves_state"%string] /\
   seq_holds [SStartThreadFail; SStop; SStart] (hseq true true hinit [SStartThreadFail; SStop; SStart]) (spec_run false [SStartThreadFail; SStop; SStart]) = [].
 Proof. repeat split; vm_compute; reflexivity. Qed.
+
+(* stop() does not hold the lock while it joins: between "main thread ended, socket closed" and
+   "running := False" the flag is still True.  start() arriving there is a silent no-op in the code as it is
+   (the machine has exactly this state: stopper at Sp_clear, starter at St_chk).  A start() that touches the
+   socket in its "already running" branch (seed C20-r7s1: return self._socket.getsockname()) raises there *)
+Definition peek := {| v_join := true; v_close := true; v_release := true; v_chkrun := true; v_reset := true;
+                      v_trycovers := true; v_peek := true |}.
+Definition window_schedule : list choice :=
+  [C 0; C 0; C 0; M; M; M; C 0; C 1; C 1].      (* stop: acquire, set flag, release; main: acquire, see flag, close;
+                                                    stop: join returns; start: acquire, "already running" *)
+Theorem C20_refuted_start_touches_socket_when_running :
+  let s0 := tpool0 true [[false]; [true]] in
+  err (g (run glob cpc op lock (cstep cur) (mstep cur) s0 window_schedule)) = false /\
+  sock (g (run glob cpc op lock (cstep cur) (mstep cur) s0 window_schedule)) = SClosed /\
+  running (g (run glob cpc op lock (cstep cur) (mstep cur) s0 window_schedule)) = true /\
+  err (g (run glob cpc op lock (cstep peek) (mstep peek) s0 window_schedule)) = true.
+Proof. vm_compute. repeat split; reflexivity. Qed.
 
 (* stop() called while the main thread is busy in a request handler: with the join the call is still
    blocked when the handler is released (the model says stop() MUST wait); without it stop() returns while
